@@ -16,7 +16,9 @@ res = {"property": pid, "variant": x, "crate": crate, "demo_test": test}
 sh("git checkout -- . && git clean -fdq -e target -e Cargo.lock")
 dst = f"{wt}/{crate}/tests/{fname}"
 shutil.copy(f"{src}/demo.rs", dst)
-cmd = f"cargo test -p {crate} --test {test} --offline -- --test-threads 1"
+fm = re.search(r'--features[ =]([\w,-]+)', demo)
+feat = f" --features {fm.group(1)}" if fm else ""
+cmd = f"cargo test -p {crate} --test {test}{feat} --offline -- --test-threads 1"
 rc0, out0 = sh(cmd)
 res["demo_without_change"] = "pass" if rc0 == 0 else "FAIL"
 rc, out = sh(f"git apply {src}/patch.diff")
